@@ -2,6 +2,7 @@
   C10 — A command that fails changes nothing.
 -/
 import ErgoProofs.Lemmas.ReachInv
+import ErgoProofs.Lemmas.FileLog
 namespace Ergo
 
 /-- whenever a command exits non-zero — validation error, unknown or pruned id, illegal transition, missing claim,
@@ -40,5 +41,11 @@ theorem C10_create_all_or_nothing (g : Graph) (isEpic : Bool) (epicId title body
 
 /-- non-vacuity: a failing command exists (an illegal transition) -/
 example : (runCmd [] { agent := "a" } (.claim "ZZZZZZ")).err = some (.unknownTask "ZZZZZZ") := by decide
+
+/-- the same about the **file**: a command refused before or inside its lock section (every `CmdErr` of the model; I/O faults during the write are the check's business) leaves every byte of `.ergo/plans.jsonl` as it was — not even the repair of a torn
+    tail is made for it (the repair belongs to the append, and a failed command appends nothing) -/
+theorem C10_failure_leaves_every_byte (log : List Event) (env : Env) (req : Request) (e : CmdErr) (ets : Event → String) (f : Storage.Bytes)
+    (h : (runCmd log env req).err = some e) : Codec.fileAfter ets f (runCmd log env req).write = f := by
+  rw [(runCmd_err_unchanged log env req e h).2]; rfl
 
 end Ergo
